@@ -218,7 +218,13 @@ func VerifC11Body() {
 		}
 		return nil
 	})
-	r := newRequest("POST", "/things", w)
+	// payloads also travel with methods that usually carry none (a search sent as
+	// GET with a body): the header still has to describe what is sent
+	method := "POST"
+	if kind >= 1 && kind <= 3 || kind == 7 || kind == 8 {
+		method = []string{"POST", "GET", "OPTIONS"}[zv.Choose("method", 3)]
+	}
+	r := newRequest(method, "/things", w)
 	req, err := r.buildHTTP(mediaType, "/", producers, nil, auth)
 	zv.Assert("request-builds", err == nil && req != nil)
 	if err != nil || req == nil {
